@@ -130,7 +130,7 @@ func parse(block txt.Block) (klog.Record, []txt.Error) {
 		// Check for correct indentation.
 		entry := indentator.NewIndentedParseable(l, 1)
 		if entry == nil || txt.IsSpaceOrTab(entry.Peek()) {
-			errs = append(errs, ErrorIllegalIndentation().New(block, nr(lines), 0, len(l.Text)))
+			errs = append(errs, ErrorIllegalIndentation().New(block, nr(lines), 0, len([]rune(l.Text))))
 			break
 		}
 
